@@ -167,7 +167,9 @@ def run(ctx):
 
     # ---- 3. generation
     def gen(cfg, budget):
-        g = ctx.tlc_must_pass(SPEC, cfg, timeout=sc * (600 if quick else 2400), workers=half, heap='3g', dump=True, tag='gen-' + cfg.split('.')[1])
+        # one worker: strict breadth-first order, so that (with nops hidden by the VIEW) every state is first reached with the
+        # fewest operations and the set of nodes does not depend on the scheduling of TLC's worker threads
+        g = ctx.tlc_must_pass(SPEC, cfg, timeout=sc * (600 if quick else 2400), workers=1, heap='3g', dump=True, tag='gen-' + cfg.split('.')[1])
         nodes, probes, total, chosen, acts, errs, pacts = read_generation(random.Random(f'{ctx.seed}/{cfg}'), g.dump_path, budget)
         os.remove(g.dump_path)
         auto = cfg_constant(ctx, cfg, 'AutoCreate') == 'TRUE'
@@ -198,7 +200,7 @@ def run(ctx):
             raise vlib.Inconclusive('simulation produced no behaviours')
         return cases
 
-    gen_budget = 60000 if quick else 400000
+    gen_budget = 60000 if quick else 250000
     errs = []
     with ThreadPoolExecutor(max_workers=2) as ex:
         f_mc = [ex.submit(mc, f'MetaData.MC_{tier}.cfg'), ex.submit(mc, f'MetaData.MCdur_{tier}.cfg')]
@@ -226,7 +228,7 @@ def run(ctx):
 
     with ThreadPoolExecutor(max_workers=3) as ex:
         f_gen = [ex.submit(gen, f'MetaData.Gen_{tier}.cfg', gen_budget), ex.submit(gen, f'MetaData.Gendur_{tier}.cfg', gen_budget)]
-        f_sim = ex.submit(sim, f'MetaData.Sim_{tier}.cfg', 320 if quick else 1600, 10 if quick else 16)
+        f_sim = ex.submit(sim, f'MetaData.Sim_{tier}.cfg', 320 if quick else 800, 10 if quick else 16)
         gens = []
         for f in f_gen:
             try:
